@@ -249,6 +249,13 @@ var (
 
 func getFixture() (*fixture, error) {
 	fxOnce.Do(func() {
+		// under "go test -fuzz" the working directory is the source directory of this package: keep the
+		// proxy's scratch directory (created relative to the cwd, made absolute at once) out of it
+		if d := os.Getenv("VERIF_OUT"); d != "" && os.Getenv("VERIF_FUZZ") != "" {
+			if old, err := os.Getwd(); err == nil && os.Chdir(d) == nil {
+				defer os.Chdir(old)
+			}
+		}
 		p, err := proxyfix.Shared()
 		if err != nil {
 			fxErr = err
@@ -384,7 +391,7 @@ type connOutcome struct {
 	authOK    bool
 }
 
-func (f *fixture) runFuzzConn(c c38Case) (res connOutcome) {
+func (f *fixture) runFuzzConn(c c38Case, budget time.Duration) (res connOutcome) {
 	var nc net.Conn
 	var wire []byte
 	if c.Handshake != nil {
@@ -436,12 +443,12 @@ func (f *fixture) runFuzzConn(c c38Case) (res connOutcome) {
 			}
 		}
 	}()
-	nc.SetWriteDeadline(time.Now().Add(closeBudget))
+	nc.SetWriteDeadline(time.Now().Add(budget))
 	_, werr := nc.Write(wire)
 	if tc, ok := nc.(*net.TCPConn); ok {
 		tc.CloseWrite()
 	}
-	nc.SetReadDeadline(time.Now().Add(closeBudget))
+	nc.SetReadDeadline(time.Now().Add(budget))
 	<-done
 	res.received = rbuf.Bytes()
 	// io.EOF or a reset: the proxy closed the connection; a timeout: it did not
@@ -461,6 +468,70 @@ func (f *fixture) runFuzzConn(c c38Case) (res connOutcome) {
 		b = b[4+n:]
 	}
 	return
+}
+
+// ---------------------------------------------------------------------------
+// classifier of finding C38-F1 (parser.SplitStatementToPieces never returns)
+// ---------------------------------------------------------------------------
+
+// noTokenByte: bytes that start no token of Gaea's SQL scanner (found by probing the scanner byte by byte).
+func noTokenByte(b byte) bool {
+	return b <= 0x08 || (b >= 0x0e && b <= 0x1f) || b == 0x7f || b == '[' || b == ']'
+}
+
+// splitterLoops reports whether a statement text is of the shape that makes the multi-statement splitter spin:
+// a semicolon that is not the end of the text, and a byte that starts no token outside strings, quoted
+// identifiers and comments.
+func splitterLoops(text []byte) bool {
+	t := bytes.TrimRight(text, ";")
+	if bytes.IndexByte(t, ';') < 0 {
+		return false
+	}
+	for i := 0; i < len(t); i++ {
+		ch := t[i]
+		switch {
+		case ch == '\'' || ch == '"' || ch == '`':
+			j := i + 1
+			for j < len(t) && t[j] != ch {
+				if t[j] == '\\' && ch != '`' {
+					j++
+				}
+				j++
+			}
+			i = j
+		case ch == '/' && i+1 < len(t) && t[i+1] == '*':
+			j := bytes.Index(t[i+2:], []byte("*/"))
+			if j < 0 {
+				return false
+			}
+			i += 2 + j + 1
+		case ch == '#', ch == '-' && i+2 < len(t) && t[i+1] == '-' && (t[i+2] == ' ' || t[i+2] == '\t' || t[i+2] == '\n'):
+			j := bytes.IndexByte(t[i:], '\n')
+			if j < 0 {
+				return false
+			}
+			i += j
+		case noTokenByte(ch):
+			return true
+		}
+	}
+	return false
+}
+
+func (c c38Case) matchesF1() bool {
+	if c.Handshake != nil && c.Handshake.Caps&capMultiStmts == 0 {
+		return false
+	}
+	for i := range c.Cmds {
+		cm := &c.Cmds[i]
+		if (cm.Cmd == comQuery || cm.Cmd == comStmtPrepare) && cm.Frame.Mode == "" {
+			p := cm.payload()
+			if len(p) > 1 && splitterLoops(p[1:]) {
+				return true
+			}
+		}
+	}
+	return false
 }
 
 // ---------------------------------------------------------------------------
@@ -593,24 +664,40 @@ func checkC38Sub(sub string, c c38Case) (o pbt.Outcome) {
 	writeLastInput(sub, c)
 
 	// the input; a connection that is not closed within the budget must reproduce three times
-	res := f.runFuzzConn(c)
+	// (inputs of the shape of finding C38-F1 leave a spinning goroutine behind at every attempt:
+	// they get one attempt and a short budget)
+	budget, attempts := closeBudget, 3
+	f1Shape := c.matchesF1()
+	if f1Shape {
+		budget, attempts = 3*time.Second, 1
+		o.Labels = append(o.Labels, "f1_shape")
+	}
+	res := f.runFuzzConn(c, budget)
 	if res.fixture != "" {
 		o.Violation = "fuzz connection could not be set up: " + res.fixture
 		return
 	}
 	if !res.closed {
 		hangs := 1
-		for i := 0; i < 2; i++ {
-			if r2 := f.runFuzzConn(c); r2.fixture == "" && !r2.closed {
+		for i := 1; i < attempts; i++ {
+			if r2 := f.runFuzzConn(c, budget); r2.fixture == "" && !r2.closed {
 				hangs++
 			}
 		}
-		if hangs == 3 {
-			o.Violation = fmt.Sprintf("the proxy did not close the connection within %v after the client closed its side (3 of 3 attempts); received %d bytes", closeBudget, len(res.received))
+		if hangs == attempts {
+			detail := fmt.Sprintf("the proxy did not close the connection within %v after the client closed its side (%d of %d attempts); received %d bytes", budget, hangs, attempts, len(res.received))
+			if f1Shape {
+				o.Known, o.KnownWhat = "C38-F1", detail
+				// the rest of the oracle (other sessions unharmed) still applies; the spinning goroutine is part of the finding
+				g0 = -1
+			} else {
+				o.Violation = detail
+				return
+			}
+		} else {
+			o.Skip = "connection not closed within the budget, not reproducible"
 			return
 		}
-		o.Skip = "connection not closed within the budget, not reproducible"
-		return
 	}
 	if res.errPacket {
 		o.Labels = append(o.Labels, "outcome_error_packet")
@@ -650,11 +737,11 @@ func checkC38Sub(sub string, c c38Case) (o pbt.Outcome) {
 	for {
 		inUse := f.poolInUse()
 		g, sig := proxyGoroutines()
-		if inUse <= inUse0 && g <= g0 {
+		if inUse <= inUse0 && (g <= g0 || g0 < 0) {
 			break
 		}
 		if time.Now().After(deadline) {
-			if g > g0 {
+			if g > g0 && g0 >= 0 {
 				o.Violation = fmt.Sprintf("goroutines running proxy code did not return to the baseline: %d before the input, %d more than 8 s after it (%s)", g0, g, diffSigs(sig0, sig))
 			} else {
 				o.Violation = fmt.Sprintf("backend connections taken from the pool did not return: %d in use before the input, %d more than 8 s after it", inUse0, inUse)
@@ -667,13 +754,13 @@ func checkC38Sub(sub string, c c38Case) (o pbt.Outcome) {
 }
 
 func TestC38Handshake(t *testing.T) {
-	pbt.Run(t, pbt.Spec{ID: "C38", Sub: "handshake", Quick: 1200, Thorough: 8000,
+	pbt.Run(t, pbt.Spec{ID: "C38", Sub: "handshake", Quick: 1200, Thorough: 3000,
 		Rule:  "HandshakeResponse41 built from fields (capability bits incl. no-4.1/secure-connection/lenenc-auth/connect-with-db/plugin-auth, filler length, user, auth data with length prefix variants fe+8xff, fb, fc+too long, length+5, 2^63, ff, NUL-terminated; database; plugin name; attributes), truncated at every offset class, framed with zero-length, too long/short announced length, wrong sequence; optional blind auth-switch answer and 0-2 command packets; non-trivial = at least one field deviates from a well-formed response",
 		Floor: 0.5}, func(t *rapid.T) c38Case { return genCase(rapidSrc{t}, true) }, func(c c38Case) pbt.Outcome { return checkC38Sub("handshake", c) })
 }
 
 func TestC38Command(t *testing.T) {
-	pbt.Run(t, pbt.Spec{ID: "C38", Sub: "command", Quick: 1800, Thorough: 12000,
+	pbt.Run(t, pbt.Spec{ID: "C38", Sub: "command", Quick: 1800, Thorough: 4500,
 		Rule:  "valid handshake, then 1-4 pipelined command packets: COM_QUERY (SQL list incl. sharded table, unterminated literals, raw bytes), COM_STMT_PREPARE, COM_STMT_EXECUTE (statement id by reference or out of range, flags, null bitmap variants, new-params-bound flag, valid and out-of-range type codes, values with valid or hostile encodings: truncated fixed-width, date/time length byte disagreeing with the data, length prefixes fe+8xff / fc ffff / fb / 2^63), COM_STMT_SEND_LONG_DATA, RESET, CLOSE, COM_FIELD_LIST with and without NUL, COM_INIT_DB, unknown commands; payload truncation, zero-length packets, wrong announced lengths and sequence ids; non-trivial = at least one mutation",
 		Floor: 0.5}, func(t *rapid.T) c38Case { return genCase(rapidSrc{t}, false) }, func(c c38Case) pbt.Outcome { return checkC38Sub("command", c) })
 }
@@ -694,6 +781,9 @@ func FuzzC38(f *testing.F) {
 		}
 		s := &byteSrc{b: data}
 		c := genCase(s, s.pick("phase", 2) == 1)
+		if c.matchesF1() {
+			t.Skip() // known finding C38-F1: every such input leaves a spinning goroutine in the worker
+		}
 		o := checkC38(c)
 		if o.Violation != "" && o.Known == "" {
 			cj, _ := json.Marshal(c)
